@@ -60,6 +60,9 @@ pub struct StreamSpec {
     /// the reader waits this long before its first receive/stop call
     #[serde(default)]
     pub read_start_delay_us: u64,
+    /// pause of the writing application between two chunks (a trickle)
+    #[serde(default)]
+    pub write_delay_us: u64,
 }
 
 #[derive(Clone, Debug, Serialize, Deserialize)]
